@@ -10,7 +10,10 @@
 //   * value-copy fault points: every value travelling through a generated expression is a tracked `payload`
 //     (live-object count, C02) whose copy / move constructor throws err{77} when the object is armed; a script
 //     completion `L<id>:t<v>` makes the leaf send an armed payload.  All helpers below take payloads by
-//     reference (no copy of their own) and build fresh, unarmed payloads for their results.
+//     reference (no copy of their own) and build fresh, unarmed payloads for their results;
+//   * bound values: a leaf inside a let_value successor may watch the payload the successor was built from (it lives in the
+//     let_value operation, which must destroy the successor operation first): start and destructor of the leaf's
+//     operation state log `start_watch_dead` / `dtor_watch_dead` (implementation-only) if that payload is gone.
 #pragma once
 #include "k2.hpp"
 #include <unifex/scheduler_concepts.hpp>
@@ -42,13 +45,16 @@ inline int cur_ctx = 0;
 // ---- the tracked value type -----------------------------------------------------------------------------
 inline int live_payloads = 0;
 constexpr int THROW_CODE = 77;
+constexpr unsigned PAYLOAD_LIVE = 0xA11CE5u;
 struct payload {
   int v; bool armed;
+  volatile unsigned alive_ = PAYLOAD_LIVE;   // cleared by the destructor; read by the leaves that watch a bound value
+  bool is_alive() const noexcept { return alive_ == PAYLOAD_LIVE; }
   explicit payload(int x, bool a = false) noexcept : v(x), armed(a) { ++live_payloads; }
   payload(const payload& o) : v(o.v), armed(false) { if (o.armed) throw err{THROW_CODE}; ++live_payloads; }
   payload(payload&& o) : v(o.v), armed(false) { if (o.armed) throw err{THROW_CODE}; ++live_payloads; }
   payload& operator=(const payload&) = delete;
-  ~payload() { --live_payloads; }
+  ~payload() { alive_ = 0xDEADu; --live_payloads; }
 };
 inline auto just(int v) { return unifex::just(payload(v)); }
 // the callable table over payloads: the argument is taken by reference, the result is a fresh object
@@ -219,15 +225,17 @@ struct leaf_op {
   unifex::manual_lifetime<cb_t> stopcb;
   bool cb_live = false, started_ = false, done_ = false;
 
-  unsigned alive_ = 0x600DC0DEu;     // destructor canary: a second destructor call on the same storage is reported
+  volatile unsigned alive_ = 0x600DC0DEu;     // destructor canary: a second destructor call on the same storage is reported
+  const payload* watch;              // bound value of the enclosing let_value successor (or null)
   template <typename R2>
-  leaf_op(int i, bool re, R2&& rr) : id(i), reactive(re), r((R2&&)rr) {
+  leaf_op(int i, bool re, const payload* w, R2&& rr) : id(i), reactive(re), r((R2&&)rr), watch(w) {
     log("ctor " + std::to_string(id));   // implementation-only marker (C02 monitor: constructions vs destructions)
   }
   leaf_op(leaf_op&&) = delete;
   ~leaf_op() {
     if (alive_ != 0x600DC0DEu) { log("dtor_dead " + std::to_string(alive_ == 0xDEADDEADu ? id : -1)); return; }
     alive_ = 0xDEADDEADu;
+    if (watch && !watch->is_alive()) log("dtor_watch_dead " + std::to_string(id));   // C02: the value this op refers to is gone
     if (!started_) { log("dtor_ns " + std::to_string(id)); return; }
     if (!done_) {   // destroyed before it completed: C02 violation (reported by the monitor)
       log("dtor_early " + std::to_string(id));
@@ -242,6 +250,7 @@ struct leaf_op {
     auto& c = CTL[id];
     c.op = this; c.complete_fn = &do_complete; c.started = true; c.completed = false;
     started_ = true;
+    if (watch && !watch->is_alive()) log("start_watch_dead " + std::to_string(id));
     auto tok = unifex::get_stop_token(r);
     char buf[200];
     std::snprintf(buf, sizeof buf, "start %d stopped=%d stoppable=%d q0=%d q1=%d sch=%d ctx=%d", id, (int)tok.stop_requested(),
@@ -281,10 +290,10 @@ struct leaf {
   static constexpr bool sends_done = true;
   static constexpr unifex::blocking_kind blocking = unifex::blocking_kind::maybe;
   static constexpr bool is_always_scheduler_affine = false;
-  int id; bool reactive;
+  int id; bool reactive; const payload* watch = nullptr;
   template <typename R>
   friend leaf_op<unifex::remove_cvref_t<R>> tag_invoke(unifex::tag_t<unifex::connect>, const leaf& s, R&& r) {
-    return leaf_op<unifex::remove_cvref_t<R>>{s.id, s.reactive, (R&&)r};
+    return leaf_op<unifex::remove_cvref_t<R>>{s.id, s.reactive, s.watch, (R&&)r};
   }
 };
 
@@ -307,8 +316,8 @@ template <typename F> auto lvss(bool now, F f) {
   });
 }
 // a leaf whose value is passed through a callable that first requests stop on the given source
-template <typename Src> auto leafr(int id, Src* src) {
-  return unifex::then(leaf{id, false}, [id, src](const payload& p) noexcept {
+template <typename Src> auto leafr(int id, Src* src, const payload* watch = nullptr) {
+  return unifex::then(leaf{id, false, watch}, [id, src](const payload& p) noexcept {
     log("reqstop " + std::to_string(id));
     src->request_stop();
     return payload(p.v);
